@@ -218,6 +218,12 @@ func (o *Obligation) SMT() string {
 
 // Discharge runs the solver race on one obligation.
 func Discharge(o *Obligation, dir string, idx int, timeoutS int) {
+	if o.ctx == nil {
+		if o.Status == "" {
+			o.Status = "unknown"
+		}
+		return
+	}
 	if o.Expect == "canary" && timeoutS > 3 {
 		timeoutS = 3 // a canary only has to be "not provable": unknown is as good as sat
 	}
